@@ -8,7 +8,7 @@ from ..automat_x import Program
 from ..astutil import dotted, const, params, local_defs, is_self_attr, calls_named, same_expr, walk_shallow, enclosing_function
 from ..dataflow import expand, expand_flow, call_arg
 from ..effects import class_writers, is_const
-from ..cfg import build
+from ..cfg import build, truthy_atom, cmp_atom, in_atom, none_atom
 from ..tablerules import output_raises, row_calls
 from ..selftest import Mutant, Rewrite
 
@@ -63,7 +63,7 @@ def r1(tree, rep):
         d = consts.get(name)
         ok = isinstance(d, ast.DictComp) and isinstance(d.value, ast.Subscript) and const(d.value.slice) == idx and \
             isinstance(d.generators[0].iter, ast.Call) and dotted(d.generators[0].iter.func) == "raw_words.items" and \
-            isinstance(d.key, ast.Call) and (dotted(d.key.func) or "").endswith("unhexlify")
+            isinstance(d.key, ast.Call) and ((dotted(d.key.func) or "").endswith("unhexlify") or dotted(d.key.func) == "bytes.fromhex")
         rep.check("C19.R1", "%s maps unhexlify(key) to word #%d of every raw_words entry" % (name, idx), ok, site(d, WL) if d is not None else WL, key="C19.R1:%s" % name)
     mod = tree.ast(WL)
     adds = {}
@@ -83,6 +83,12 @@ def r1(tree, rep):
                and [getattr(e, "id", None) for e in n.targets[0].elts] == ["even_word", "odd_word"]]
         ok = ok and len(unp) == 1
     rep.check("C19.R1", "the lower-case completion sets are filled with word #0 (even) and word #1 (odd) of every entry", ok, WL, key="C19.R1:lowercase-sets")
+
+
+def _int(e):
+    if isinstance(e, ast.UnaryOp) and isinstance(e.op, ast.USub) and isinstance(e.operand, ast.Constant):
+        return -e.operand.value
+    return e.value if isinstance(e, ast.Constant) and isinstance(e.value, int) else None
 
 
 def _parity_branch(fn, test):
@@ -154,13 +160,18 @@ def r2(tree, rep):
               what="completion offers words from the list that choose_words never uses at that position (an accepted completion yields a code allocate could not produce)")
     g = build(gc)
     adds = g.call_nodes(lambda c: dotted(c.func) == "completions.add")
-    sw = [t for t in g.nodes(lambda s: isinstance(s, ast.If)) if isinstance(g.stmt[t].test, ast.Call) and isinstance(g.stmt[t].test.func, ast.Attribute)
-          and g.stmt[t].test.func.attr == "startswith" and isinstance(g.stmt[t].test.func.value, ast.Name) and g.stmt[t].test.func.value.id == "word"]
-    ok = len(adds) == 1 and len(sw) == 1 and not g.guarded_by(sw, adds, 'T')
+    sw_calls = [c for c in ast.walk(gc) if isinstance(c, ast.Call) and isinstance(c.func, ast.Attribute) and c.func.attr == "startswith"
+                and isinstance(c.func.value, ast.Name) and c.func.value.id == "word" and len(c.args) == 1]
+    starts = truthy_atom(lambda e: any(e is c for c in sw_calls))
+    gs = build(gc, split=True)
+    adds = gs.call_nodes(lambda c: dotted(c.func) == "completions.add")
+    ok = len(adds) == 1 and len(sw_calls) == 1 and not gs.only_when(adds, starts, True)
     if ok:
-        lpw = expand_flow(gc, g.stmt[sw[0]].test.args[0])
-        ok = isinstance(lpw, ast.Subscript) and const(lpw.slice) is not None and isinstance(lpw.slice, ast.UnaryOp) or \
-            (isinstance(lpw, ast.Subscript) and isinstance(lpw.value, ast.Call) and isinstance(lpw.value.func, ast.Attribute) and lpw.value.func.attr == "split")
+        lpw = expand_flow(gc, sw_calls[0].args[0])
+        # the partial last word: prefix.split("-")[-1]  /  prefix.rpartition("-")[2] (or [-1])
+        ok = isinstance(lpw, ast.Subscript) and isinstance(lpw.value, ast.Call) and isinstance(lpw.value.func, ast.Attribute) \
+            and ((lpw.value.func.attr in ("split", "rsplit") and _int(lpw.slice) == -1)
+                 or (lpw.value.func.attr == "rpartition" and _int(lpw.slice) in (2, -1))) and const(lpw.value.args[0]) == "-"
     rep.check("C19.R2", "a word is offered only if it starts with the partial last word typed", ok, site(gc, WL), key="C19.R2:get_completions:prefix-guard")
     loopw = [n for n in walk_shallow(gc) if isinstance(n, ast.For) and isinstance(n.iter, ast.Name) and n.iter.id == "words"]
     rep.check("C19.R2", "get_completions scans the whole chosen list", len(loopw) == 1 and not any(isinstance(x, (ast.Break, ast.Return)) for x in ast.walk(loopw[0])),
@@ -176,11 +187,11 @@ def r2(tree, rep):
     rep.check("C19.R2", "the package never imports the `random` module (code words come from os.urandom)", not offenders,
               site(offenders[0][1], offenders[0][0]) if offenders else WL, key="C19.R2:no-random-module")
     ig = tree.func(INP, "Input", "_get_nameplate_completions")
-    g = build(ig)
+    g = build(ig, split=True)
     adds = g.call_nodes(lambda c: dotted(c.func) == "completions.add")
-    sw = [t for t in g.nodes(lambda s: isinstance(s, ast.If)) if isinstance(g.stmt[t].test, ast.Call) and isinstance(g.stmt[t].test.func, ast.Attribute)
-          and g.stmt[t].test.func.attr == "startswith" and isinstance(g.stmt[t].test.args[0], ast.Name) and g.stmt[t].test.args[0].id == params(ig)[0]]
-    rep.check("C19.R2", "a nameplate completion is offered only if it starts with the typed prefix", len(adds) == 1 and len(sw) == 1 and not g.guarded_by(sw, adds, 'T'),
+    starts_np = truthy_atom(lambda e: isinstance(e, ast.Call) and isinstance(e.func, ast.Attribute) and e.func.attr == "startswith"
+                            and len(e.args) == 1 and isinstance(e.args[0], ast.Name) and e.args[0].id == params(ig)[0])
+    rep.check("C19.R2", "a nameplate completion is offered only if it starts with the typed prefix", len(adds) == 1 and not g.only_when(adds, starts_np, True),
               site(ig, INP), key="C19.R2:nameplate-completions")
 
 
@@ -257,24 +268,30 @@ def r3(tree, rep):
     rep.check("C19.R3", "validate_nameplate accepts exactly non-empty digit strings (pattern anchored at start and at the end of the string)", ok,
               site(vn, NP), key="C19.R3:nameplate-pattern", what="the nameplate pattern admits non-numeric input: %s" % why)
     if len(found) == 1:
-        tests = [t for t in g.nodes(lambda s: isinstance(s, ast.If)) if found[0][2] in ast.walk(g.stmt[t].test)]
-        ok = len(tests) == 1
-        if ok:
-            neg = isinstance(g.stmt[tests[0]].test, ast.UnaryOp)
-            bad = 'T' if neg else 'F'
-            ok = g.branch_always_raises(tests[0], bad) and g.must_pass(tests)
+        the_call = found[0][2]
+
+        def matches(e):
+            if e is the_call:
+                return True
+            if isinstance(e, ast.Compare) and len(e.ops) == 1 and e.left is the_call and isinstance(e.comparators[0], ast.Constant) \
+                    and e.comparators[0].value is None:
+                return "neg" if isinstance(e.ops[0], (ast.Is, ast.Eq)) else (True if isinstance(e.ops[0], (ast.IsNot, ast.NotEq)) else None)
+            return None
+        gs = build(vn, split=True)
+        ok = gs.when_always_raises(matches, False) and not gs.only_when([gs.exit], matches, True)
         rep.check("C19.R3", "validate_nameplate raises when the pattern does not match", ok, site(vn, NP), key="C19.R3:nameplate-raises")
     vc = tree.func(CODE, None, "validate_code")
-    g = build(vc)
-    sp = [t for t in g.nodes(lambda s: isinstance(s, ast.If)) if isinstance(g.stmt[t].test, ast.Compare) and isinstance(g.stmt[t].test.ops[0], ast.In)
-          and const(g.stmt[t].test.left) == " " and isinstance(g.stmt[t].test.comparators[0], ast.Name) and g.stmt[t].test.comparators[0].id == params(vc, False)[0]]
+    g = build(vc, split=True)
+    has_space = in_atom(lambda e: const(e) == " ", lambda e: isinstance(e, ast.Name) and e.id == params(vc, False)[0])
     vnc = g.call_nodes(lambda c: dotted(c.func) == "validate_nameplate")
-    ok = len(sp) == 1 and g.branch_always_raises(sp[0], 'T') and g.must_pass(sp) and len(vnc) == 1 and g.must_pass(vnc)
+    ok = g.when_always_raises(has_space, True) and not g.only_when([g.exit], has_space, False) and len(vnc) == 1 and g.must_pass(vnc)
     if ok:
         c = [c for c in ast.walk(g.stmt[vnc[0]]) if isinstance(c, ast.Call) and dotted(c.func) == "validate_nameplate"][0]
         a = expand(vc, c.args[0])
+        # the part before the first hyphen: code.split("-"[, n])[0]  or  code.partition("-")[0]
         ok = isinstance(a, ast.Subscript) and const(a.slice) == 0 and isinstance(a.value, ast.Call) and isinstance(a.value.func, ast.Attribute) \
-            and a.value.func.attr == "split" and const(a.value.args[0]) == "-"
+            and a.value.func.attr in ("split", "partition") and const(a.value.args[0]) == "-" \
+            and isinstance(a.value.func.value, ast.Name) and a.value.func.value.id == params(vc, False)[0]
     rep.check("C19.R3", "validate_code rejects a space anywhere and validates the part before the first hyphen as the nameplate", ok, site(vc, CODE), key="C19.R3:validate_code")
     for (f, cls, meth, first, then_) in ((BOSS, "Boss", "set_code", "validate_code", ("self._C.set_code",)),
                                          (CODE, "Code", "set_code", "validate_code", ("self._set_code",)),
@@ -294,14 +311,15 @@ def r3(tree, rep):
 def r4(tree, rep):
     for meth, delegate in (("input_code", "self._C.input_code"), ("allocate_code", "self._C.allocate_code"), ("set_code", "self._C.set_code")):
         fn = tree.func(BOSS, "Boss", meth)
-        g = build(fn)
-        t = [n for n in g.nodes(lambda s: isinstance(s, ast.If)) if is_self_attr(g.stmt[n].test, "_did_start_code")]
+        g = build(fn, split=True)
+        started = truthy_atom(lambda e: is_self_attr(e, "_did_start_code"))
         sets = g.nodes(lambda s: isinstance(s, ast.Assign) and any(is_self_attr(x, "_did_start_code") for x in s.targets) and const(s.value) is True)
         dl = g.call_nodes(lambda c, delegate=delegate: dotted(c.func) == delegate)
-        ok = len(t) == 1 and len(sets) == 1 and len(dl) == 1 and g.branch_always_raises(t[0], 'T') and not g.guarded_by(t, dl + sets, 'F') \
-            and not g.precedes(sets, dl) and g.must_pass(t)
+        te = g.cond_edges(started, True)
+        ok = len(sets) == 1 and len(dl) == 1 and bool(te) and g.when_always_raises(started, True) and not g.only_when(dl + sets, started, False) \
+            and not g.precedes(sets, dl)
         if ok:
-            rs = [r for r in g.nodes(lambda s: isinstance(s, ast.Raise)) if r in g.reach(g.branch_targets(t[0], 'T'))]
+            rs = [r for r in g.nodes(lambda s: isinstance(s, ast.Raise)) if any(r in g.reach([y]) for (x, y, l) in te)]
             ok = any(dotted(g.stmt[r].exc.func if isinstance(g.stmt[r].exc, ast.Call) else g.stmt[r].exc) == "OnlyOneCodeError" for r in rs)
         rep.check("C19.R4", "Boss.%s raises OnlyOneCodeError if a code was already started, and sets the flag before delegating to Code" % meth, ok, site(fn, BOSS),
                   key="C19.R4:Boss.%s" % meth, what="%s can be used after another code method was used (two codes / two allocations)" % meth)
@@ -342,8 +360,9 @@ def r5(tree, rep):
         fi = calls_named(dw, "self._C.finished_input")
         if len(fi) == 1:
             v = expand(dw, fi[0].args[0])
-            ok = isinstance(v, ast.BinOp) and isinstance(v.op, ast.Add) and isinstance(v.left, ast.BinOp) and is_self_attr(v.left.left, "_nameplate") \
-                and const(v.left.right) == "-" and isinstance(v.right, ast.Name) and v.right.id in params(dw)
+            from ..astutil import hyphen_joined
+            hj = hyphen_joined(v)
+            ok = hj is not None and is_self_attr(hj[0], "_nameplate") and isinstance(hj[1], ast.Name) and hj[1].id in params(dw)
     rep.check("C19.R5", "the entered code is <chosen nameplate> + '-' + <chosen words>", ok, site(dw, I.file) if dw else I.file, key="C19.R5:do_words")
     A = prog.machine("Allocator")
     bn = A.outputs.get("build_and_notify")
@@ -353,9 +372,11 @@ def r5(tree, rep):
         cw = [c for c in ast.walk(bn) if isinstance(c, ast.Call) and dotted(c.func) == "self._wordlist.choose_words"]
         if len(al) == 1 and len(cw) == 1 and len(al[0].args) == 2:
             v = expand(bn, al[0].args[1])
-            ok = isinstance(v, ast.BinOp) and isinstance(v.left, ast.BinOp) and isinstance(v.left.left, ast.Name) and v.left.left.id in params(bn) \
-                and const(v.left.right) == "-" and isinstance(v.right, ast.Call) and dotted(v.right.func) == "self._wordlist.choose_words" \
-                and is_self_attr(v.right.args[0], "_length") and isinstance(al[0].args[0], ast.Name) and al[0].args[0].id == v.left.left.id
+            from ..astutil import hyphen_joined
+            hj = hyphen_joined(v)
+            ok = hj is not None and isinstance(hj[0], ast.Name) and hj[0].id in params(bn) \
+                and isinstance(hj[1], ast.Call) and dotted(hj[1].func) == "self._wordlist.choose_words" \
+                and is_self_attr(hj[1].args[0], "_length") and isinstance(al[0].args[0], ast.Name) and al[0].args[0].id == hj[0].id
     rep.check("C19.R5", "an allocated code is <server nameplate> + '-' + choose_words(<requested length>)", ok, site(bn, A.file) if bn else A.file, key="C19.R5:build_and_notify")
     own, foreign = class_writers(tree, "Allocator", "_length")
     ok = not foreign and all(isinstance(w.value, ast.Name) and w.value.id == "length" for w in own) and len(own) >= 1
